@@ -66,7 +66,10 @@ def families():
                  X.binop("+>", X.dict_([(N(1), N(5))]), X.dict_([(N(1), N(2))])),
                  X.binop("&", X.dict_([(N(1), N(2)), (N(3), N(4))]), X.dict_([(N(1), N(2)), (N(3), N(5))])),
                  X.seqarrow(X.dict_([(N(1), N(1))]), X.dotfn(X.binop("+", d, N(1)))),
-                 X.set_([X.binop("+>", X.tup([("@", N(1))]), X.tup([("@value", N(2))]))])]
+                 X.set_([X.binop("+>", X.tup([("@", N(1))]), X.tup([("@value", N(2))]))]),
+                 X.binop("without", X.binop("|", X.dict_([(N(1), N(2))]), X.dict_([(N(1), N(3))])), pr("@value", 1, N(3))),
+                 X.binop("&~", X.binop("|", X.dict_([(N(1), N(2))]), X.dict_([(N(1), N(3))])), X.dict_([(N(1), N(3))])),
+                 X.where(X.binop("|", X.dict_([(N(1), N(2))]), X.dict_([(N(1), N(3))])), X.dotfn(X.cmpop("=", X.dot(d, "@value"), N(2))))]
     F["dict_multi"] = [X.binop("|", X.dict_([(N(1), N(2))]), X.dict_([(N(1), N(3))])), X.set_([pr("@value", 1, N(2)), pr("@value", 1, N(3))]),
                        X.rel(["@", "@value"], [[N(1), N(3)], [N(1), N(2)]]),
                        X.binop("with", X.dict_([(N(1), N(3))]), pr("@value", 1, N(2))),
@@ -76,7 +79,13 @@ def families():
                    X.darrow(X.set_([N(1), N(3)]), X.dotfn(X.tup([("a", d), ("b", X.binop("+", d, N(1)))]))),
                    X.binop("|", X.rel(["a", "b"], [[N(1), N(2)]]), X.set_([X.tup([("a", N(3)), ("b", N(4))])])),
                    X.binop("without", X.rel(["a", "b"], [[N(1), N(2)], [N(3), N(4)], [N(5), N(6)]]), X.tup([("a", N(5)), ("b", N(6))])),
-                   X.where(X.rel(["a", "b"], [[N(1), N(2)], [N(3), N(4)], [N(5), N(6)]]), X.dotfn(X.cmpop("<", X.dot(d, "a"), N(5))))]
+                   X.where(X.rel(["a", "b"], [[N(1), N(2)], [N(3), N(4)], [N(5), N(6)]]), X.dotfn(X.cmpop("<", X.dot(d, "a"), N(5)))),
+                   X.binop("|", X.join("<&>", X.rel(["b"], [[N(2)]]), X.rel(["a"], [[N(1)]])), X.join("<&>", X.rel(["b"], [[N(4)]]), X.rel(["a"], [[N(3)]]))),
+                   X.join("-&>", X.rel(["b"], [[N(2)], [N(4)]]), X.join("<&>", X.rel(["b"], [[N(2)], [N(4)], [N(9)]]), X.rel(["a"], [[N(1)], [N(3)]])) ) if False else
+                   X.binop("&", X.join("<&>", X.rel(["b"], [[N(2)], [N(4)]]), X.rel(["a"], [[N(1)], [N(3)]])), X.rel(["a", "b"], [[N(1), N(2)], [N(3), N(4)]]))]
+    F["rel_one"] = [X.rel(["a", "b"], [[N(2), N(1)]]), X.join("<&>", X.rel(["b"], [[N(1)]]), X.rel(["a"], [[N(2)]])),
+                    X.join("<&>", X.rel(["a"], [[N(2)]]), X.rel(["b"], [[N(1)]])), X.set_([X.tup([("b", N(1)), ("a", N(2))])]),
+                    X.join("<&-", X.rel(["b", "a"], [[N(1), N(2)], [N(7), N(8)]]), X.rel(["a"], [[N(2)]]))]
     F["true"] = [X.true_(), X.set_([X.tup([])]), X.darrow(X.set_([N(1)]), X.dotfn(X.tup([]))), X.cmpop("=", N(1), N(1)), X.unop("!", X.set_([])),
                  X.binop("&", X.set_([X.tup([]), N(1)]), X.set_([X.tup([])]))]
     F["empty"] = [X.set_([]), X.string(""), X.arr([]), X.binop("&~", X.set_([N(1)]), X.set_([N(1)])),
@@ -99,7 +108,8 @@ def families():
     return F
 
 
-CONTEXTS = ["eq", "ne", "setcount", "dictcall", "member", "unioncount", "le_ge"]
+CONTEXTS = ["eq", "ne", "setcount", "dictcall", "member", "unioncount", "le_ge", "bigset", "bigdict", "bigmember"]
+FILLER = [X.set_([N(100 + i)]) for i in range(12)]
 
 
 def gen_cases(rng, tier):
@@ -121,6 +131,12 @@ def gen_cases(rng, tier):
             return X.cmpop("<:", a, X.set_([b, N(77)]))
         if kind == "unioncount":
             return X.unop("count", X.binop("|", X.set_([a]), X.set_([b, N(77)])))
+        if kind == "bigset":      # more than 8 members: the hashed trie decides, not a linear scan
+            return X.unop("count", X.set_(FILLER + [a, b]))
+        if kind == "bigdict":
+            return X.safecall(X.dict_([(f, N(0)) for f in FILLER] + [(a, N(1))]), b, N(-1))
+        if kind == "bigmember":
+            return X.cmpop("<:", a, X.set_(FILLER + [b]))
         if kind == "le_ge":
             return X.tup([("sub", X.cmpop("(<=)", X.set_([a]), X.set_([b]))), ("sup", X.cmpop("(>=)", X.set_([a]), X.set_([b])))])
         raise ValueError(kind)
@@ -129,7 +145,7 @@ def gen_cases(rng, tier):
         for f in names:
             for i, a in enumerate(F[f]):
                 for j, b in enumerate(F[f]):
-                    for k in ("eq", "setcount", "dictcall"):
+                    for k in ("eq", "setcount", "dictcall", "bigset", "bigdict"):
                         out.append(("%s %s %d %d" % (k, f, i, j), ctx(k, a, b)))
     n = 900 if tier == "quick" else 5000
     for _ in range(n):
